@@ -1,27 +1,202 @@
 package main
 
-// runControls runs the positive/negative controls of the engines used by property id on the
-// fixture package (tiny known-bad and known-good functions): the rule must fire on the bad
-// ones and stay silent on the good ones, on every run.
+import (
+	"fmt"
+	"go/token"
+
+	"golang.org/x/tools/go/ssa"
+)
+
+// Positive / negative controls: every engine is run, on every check run, against tiny known-bad
+// and known-good functions in /verif/fixtures/fx. The rule must fire on the bad ones and stay
+// silent on the good ones; otherwise the check itself is reported broken (a violation of kind
+// control-failed). This matters because most rules expect zero hits on a healthy tree.
+
+type control struct {
+	engines []string
+	run     func(fx *Prog, c *ctl)
+}
+
+type ctl struct {
+	r  *Report
+	fx *Prog
+}
+
+func (c *ctl) expect(name string, fired, want bool, what string) {
+	c.r.Site(1)
+	if fired == want {
+		verb := "fires on"
+		if !want {
+			verb = "is silent on"
+		}
+		c.r.OK("fixtures/fx."+name, "control", fmt.Sprintf("%s: engine %s the fixture", what, verb))
+	} else {
+		c.r.Fail("fixtures/fx."+name, "control-failed", what, fmt.Sprintf("engine fired=%v but expected %v on this fixture: the checker is broken", fired, want), "", nil)
+	}
+}
+
+func (c *ctl) fn(name string) *ssa.Function {
+	f := c.fx.Fn("fixtures/fx", name)
+	if f == nil {
+		c.r.Fail("fixtures/fx."+name, "control-missing", "fixture exists", "fixture function not found", "", nil)
+	}
+	return f
+}
+
+// which engines each property uses
+var propEngines = map[string][]string{
+	"C01": {"cmp", "ord", "guard", "flow"}, "C02": {"cmp", "guard", "flow"}, "C03": {"pair", "guard", "flow"},
+	"C04": {"ord", "guard", "flow"}, "C05": {"ord", "pair", "gby"}, "C06": {"cmp", "guard", "flow"},
+	"C07": {"ord", "pair", "reach"}, "C08": {"err", "ord", "guard"}, "C09": {"pair", "token", "chan", "ord"},
+	"C10": {"token", "guard", "ord"}, "C11": {"pair", "ord", "exh"}, "C12": {"guard"}, "C13": {"guard", "flow"},
+	"C14": {"pair", "gby"}, "C15": {"guard"}, "C16": {"guard", "flow"}, "C17": {"pair", "guard", "ord"},
+	"C18": {"exh", "pair", "guard", "reach"}, "C19": {"flow", "ord", "guard"}, "C20": {"fresh", "flow"},
+}
+
 func runControls(id string, fx *Prog, r *Report) {
-	for _, c := range controls {
-		if c.props[id] || c.props["*"] {
-			c.run(fx, r, id)
+	r.Begin(id+".ctl", "CONTROL", "positive/negative controls: each engine used by this property fires on its known-bad fixture and is silent on its known-good fixture", 2)
+	defer r.End()
+	c := &ctl{r: r, fx: fx}
+	done := map[string]bool{}
+	for _, e := range propEngines[id] {
+		if f, ok := controlFns[e]; ok && !done[e] {
+			done[e] = true
+			f(c)
 		}
 	}
 }
 
-type control struct {
-	props map[string]bool
-	run   func(fx *Prog, r *Report, id string)
-}
+func fxCall(name string) InstrPred { return evCall("fixtures/fx." + name) }
 
-var controls []control
-
-func propset(ids ...string) map[string]bool {
-	m := map[string]bool{}
-	for _, i := range ids {
-		m[i] = true
-	}
-	return m
+var controlFns = map[string]func(c *ctl){
+	"pair": func(c *ctl) {
+		sp := lockSpec()
+		sp.InScope = func(*ssa.Function) bool { return true }
+		leak := func(name string) (bool, bool) {
+			f := c.fn(name)
+			if f == nil {
+				return false, false
+			}
+			res := sp.Analyze(f, nil, nil)
+			held := false
+			for _, e := range res.Exits {
+				if len(e.State.cnt) != 0 {
+					held = true
+				}
+			}
+			return held, len(res.Underflows) > 0
+		}
+		h, _ := leak("(*S).BadLockLeak")
+		c.expect("(*S).BadLockLeak", h, true, "E-PAIR mutex: error exit with the lock held")
+		h, u := leak("(*S).GoodLockDefer")
+		c.expect("(*S).GoodLockDefer", h || u, false, "E-PAIR mutex: deferred unlock")
+		h, u = leak("(*S).GoodLockExplicit")
+		c.expect("(*S).GoodLockExplicit", h || u, false, "E-PAIR mutex: explicit unlock on every exit")
+		_, u = leak("(*S).BadDoubleUnlock")
+		c.expect("(*S).BadDoubleUnlock", u, true, "E-PAIR mutex: unlock of an unheld lock")
+	},
+	"token": func(c *ctl) {
+		sp := &TSpec{Name: "fxtoken", Instr: func(in ssa.Instruction) ([]Eff, bool) {
+			switch x := in.(type) {
+			case *ssa.Send:
+				if isFieldLoad(x.Chan, "fixtures/fx.S", "tok") {
+					return []Eff{{Res: "tok", D: 1}}, true
+				}
+			case *ssa.UnOp:
+				if x.Op == token.ARROW && isFieldLoad(x.X, "fixtures/fx.S", "tok") {
+					return []Eff{{Res: "tok", D: -1}}, true
+				}
+			}
+			return nil, false
+		}}
+		leak := func(name string) bool {
+			f := c.fn(name)
+			if f == nil {
+				return false
+			}
+			for _, e := range sp.Analyze(f, nil, nil).Exits {
+				if e.State.cnt["tok"] != 0 {
+					return true
+				}
+			}
+			return false
+		}
+		c.expect("(*S).BadTokenLeak", leak("(*S).BadTokenLeak"), true, "E-PAIR channel token: error exit holding the token")
+		c.expect("(*S).GoodToken", leak("(*S).GoodToken"), false, "E-PAIR channel token: released on all exits")
+	},
+	"ord": func(c *ctl) {
+		sy, sm, pub := fxCall("syncIt"), fxCall("setMeta"), fxCall("publish")
+		if f := c.fn("BadOrder"); f != nil {
+			c.expect("BadOrder", mustPrecede(f, nil, sy, sm) != nil, true, "E-ORD must-precede: pointer switched before sync")
+		}
+		if f := c.fn("GoodOrder"); f != nil {
+			c.expect("GoodOrder", mustPrecede(f, nil, sy, sm) != nil, false, "E-ORD must-precede: sync then switch")
+		}
+		if f := c.fn("BadSkipSync"); f != nil {
+			c.expect("BadSkipSync", mustPassBeforeReturn(f, noErrEdges, sy) != nil, true, "E-ORD must-pass-through: a success path without the sync")
+		}
+		if f := c.fn("GoodOrder"); f != nil {
+			c.expect("GoodOrder/success", mustPassBeforeReturn(f, noErrEdges, sy) != nil, false, "E-ORD must-pass-through: every success path syncs")
+		}
+		errOf := mErrOfCall("fixtures/fx.syncIt")
+		onErr := func(f *ssa.Function) bool {
+			tested := false
+			for _, b := range f.Blocks {
+				if cond, _, ok := ifCond(b); ok {
+					if x, _, ok := condNilTest(cond); ok && errOf(x) {
+						tested = true
+					}
+				}
+			}
+			return !tested || findPath(after(f, sy), onlyWhenErr(errOf), nil, pub) != nil
+		}
+		if f := c.fn("BadPublishOnError"); f != nil {
+			c.expect("BadPublishOnError", onErr(f), true, "E-ORD not-on-error: published although the sync failed")
+		}
+		if f := c.fn("GoodPublish"); f != nil {
+			c.expect("GoodPublish", onErr(f), false, "E-ORD not-on-error: published only after a successful sync")
+		}
+	},
+	"guard": func(c *ctl) {
+		mk := func(f *ssa.Function) GuardSpec {
+			atoms := []Atom{
+				cmpAtom("seq<=min", token.LEQ, mFieldLoad("fixtures/fx.S", "seq"), mFieldLoad("fixtures/fx.S", "min")),
+				boolAtom("del", mParam("del")),
+				boolAtom("base()", func(v ssa.Value) bool {
+					cl, ok := v.(*ssa.Call)
+					return ok && mParam("base")(cl.Call.Value)
+				}),
+			}
+			return GuardSpec{Rule: "ctl", Fn: f, Target: fxCall("drop"), TargetDesc: "drop()", Atoms: atoms, G: func(a []bool) bool { return a[0] && a[1] && a[2] }, GDesc: "seq<=min ∧ del ∧ base()", MinTargets: 1}
+		}
+		for name, want := range map[string]bool{"(*S).GoodGuard": false, "(*S).BadGuardWeakened": true, "(*S).BadGuardOperator": true, "(*S).GoodGuardStrengthened": false} {
+			if f := c.fn(name); f != nil {
+				ok, _, _, _, _, _ := evalGuard(c.fx, mk(f))
+				c.expect(name, !ok, want, "E-GUARD: reach(drop) ⇒ seq<=min ∧ del ∧ base()")
+			}
+		}
+	},
+	"cmp": func(c *ctl) {
+		rr := newReport("ctl", "quick", 0, "")
+		ruleComparerDiscipline(c.fx, rr, "ctl", []string{"fixtures/fx"}, nil)
+		hit := map[string]bool{}
+		for _, o := range rr.Obls {
+			if o.Status == "violation" {
+				hit[o.Construct] = true
+			}
+		}
+		c.expect("BadRawCompare", hit["fixtures/fx.BadRawCompare"], true, "comparer discipline: bytes.Compare on keys")
+		c.expect("BadStringCompare", hit["fixtures/fx.BadStringCompare"], true, "comparer discipline: string(a) < string(b) on keys")
+		c.expect("GoodOrder", hit["fixtures/fx.GoodOrder"], false, "comparer discipline: no raw comparison")
+	},
+	"chan": func(c *ctl) {
+		if f := c.fn("(*S).BadBlockingSend"); f != nil {
+			ops := chanOps(f)
+			c.expect("(*S).BadBlockingSend", len(ops) == 1 && ops[0].kind == "send" && ops[0].block, true, "channel inventory: plain blocking send is listed")
+		}
+		if f := c.fn("(*S).GoodSelectSend"); f != nil {
+			ops := chanOps(f)
+			c.expect("(*S).GoodSelectSend", len(ops) == 1 && ops[0].kind == "select" && len(ops[0].chans) == 2, true, "channel inventory: select cases are recovered")
+		}
+	},
 }
